@@ -1461,13 +1461,39 @@ class FuncEmitter:
             abort('std::make_optional over %s' % t.src, e)
         if name == 'make_pair':
             return '((cstl_pair){%s, %s})' % (self.expr(args[0]), self.expr(args[1]))
-        if name in ('begin', 'end', 'size'):
+        if name in ('begin', 'end', 'size', 'empty'):
             a = self.strip_wrappers(args[0])
             v = self.vars.get(a.get('referencedDecl', {}).get('id')) if a['kind'] == 'DeclRefExpr' else None
             if v and v['T'].k == 'range':
                 return self.range_op(v, name)
             abort('std::%s over something that is not a caller range' % name, e)
         abort('call of %s without a rule' % name, e)
+
+    def pair_parts(self, a):
+        """the two component expressions of a pair-valued argument written as make_pair(x, y), {x, y} or pair<..>(x, y)"""
+        x = a
+        while True:
+            k = x['kind']
+            if k in ('ImplicitCastExpr', 'MaterializeTemporaryExpr', 'ExprWithCleanups', 'CXXBindTemporaryExpr', 'CXXFunctionalCastExpr', 'ParenExpr') and x.get('inner'):
+                x = x['inner'][0]
+                continue
+            if k in ('CXXConstructExpr', 'CXXTemporaryObjectExpr'):
+                sub = x.get('inner', [])
+                if len(sub) == 2:
+                    return [self.expr(sub[0]), self.expr(sub[1])]
+                if len(sub) == 1:
+                    x = sub[0]
+                    continue
+                return None
+            if k == 'InitListExpr' and len(x.get('inner', [])) == 2:
+                return [self.expr(x['inner'][0]), self.expr(x['inner'][1])]
+            if k == 'CallExpr':
+                nm, _ = self.callee_name(x)
+                if nm and nm.split('::')[-1] == 'make_pair':
+                    aa = self.args_of(x)
+                    if len(aa) == 2:
+                        return [self.expr(aa[0]), self.expr(aa[1])]
+            return None
 
     def range_op(self, v, name):
         r = '(*%s)' % v['c']
@@ -1477,6 +1503,8 @@ class FuncEmitter:
             return '(%s.data + %s.len)' % (r, r)
         if name == 'size':
             return '%s.len' % r
+        if name == 'empty':
+            return '(%s.len == 0)' % r
         abort('range operation without a rule: ' + name)
 
     def x_CXXMemberCallExpr(self, e):
@@ -1541,6 +1569,12 @@ class FuncEmitter:
                 abort('container expression without a model: ' + bt.src, e)
             b = self.expr(base)
             self.note_member_op(sb, name)
+            if bt.k in ('hash', 'map', 'mmap') and name == 'insert' and len(args) == 1:
+                # insert(pair) == emplace(first, second); the pair is taken apart before it would be built
+                kv = self.pair_parts(args[0])
+                if kv:
+                    return '%s_emplace(%s, &%s, %s, %s)' % (m.name, self.pool(m), b, kv[0], kv[1])
+                abort('insert of something that is not written as a pair of two expressions', e)
             A = [self.expr(a) for a in args]
             if bt.k == 'vector':
                 if name in ('size', 'capacity') and not A:
